@@ -7,6 +7,9 @@ R02c  sequential running best: replaced only under found(x) & (!found(best) | le
 R02d  ShortestOddCycleLookup with sorted_cycles == true only over a vector sorted ascending by weight on every path
 R02e  the pruning limit handed to a search is (found, weight) of one and the same running best
 R02f  the hidden-edge heuristic removes the current signed edge from the hidden set on every iteration
+R02h  relaxation contract: a label is overwritten iff the vertex was unvisited or the new label compares less (4 searches)
+R02i  the bidirectional search breaks / prunes / skips only when the compared quantity is not less than its bound; the best meeting
+      point is replaced iff the new path is less
 R12a  lexicographic comparators test and compare the same field in each rung (shared with the tree-based variants' tie-breaking)
 """
 from lib import env
@@ -17,7 +20,15 @@ RULES = {'R02a': 5, 'R02b': 5, 'R02c': 3, 'R02d': 2, 'R02e': 8, 'R02f': 1}
 
 
 def run(rep, tier):
-    from . import c12
-    c01.run_rules(rep, tier, RULES, c01.DOCS, extra=lambda rep_, prog: c12.check_comparators(rep_, prog))
+    from . import c12, search
+
+    def extra(rep_, prog):
+        c12.check_comparators(rep_, prog)
+        search.check_relaxation(rep_, prog)
+        search.check_pruning(rep_, prog)
+    c01.run_rules(rep, tier, RULES, c01.DOCS, extra=extra)
+    rep.rule('R02h', 'relaxation contract of every label-setting search', floor=4)
+    rep.rule('R02i', 'pruning / stopping / best-update conditions of the bidirectional search are sound', floor=5)
+    c01.search_positive(rep, ('R02h', 'R02i'))
     rep.rule('R12a', 'lexicographic comparator rungs are consistent', floor=1)
     rep.note('NOT claimed: that each phase finds a minimum-weight odd cycle; optimality of the basis')
